@@ -12,6 +12,8 @@ use iggy::utils::timestamp::IggyTimestamp;
 use serde_json::{json, Value};
 
 pub const SEG_SMALL: u64 = 230;
+/// cache limit that holds about two of the harness' messages
+pub const TINY_CACHE: u64 = 150;
 
 pub(crate) fn corner_cfgs(thresholds: &[u32], segs: &[u64], fsyncs: &[bool], dedups: &[bool]) -> Vec<NodeCfg> {
     let mut v = Vec::new();
@@ -113,6 +115,13 @@ pub fn plan(prop: &str, tier: &str) -> (PropMeta, Vec<Job>) {
                 c
             }).collect();
             cfgs.extend(extra);
+            // a cache that holds about two messages: every further append evicts, so reads cross the
+            // cache / disk / unsaved-buffer borders at every offset
+            for nowait in [false, true] {
+                for threshold in if quick { vec![2u32] } else { vec![1, 2, 1000] } {
+                    cfgs.push(NodeCfg { threshold, seg_size: SEG_SMALL, cache: true, cache_size: TINY_CACHE, nowait, ..Default::default() });
+                }
+            }
             (cfgs, if quick { 4 } else { 6 }, 1, c02_alphabet)
         }
         "C03" => {
